@@ -152,6 +152,53 @@ pub fn run_history(hist: &[&[u8]], fu: Option<&FollowUp>, g: &mut G) -> Option<(
     None
 }
 
+
+/// Same oracle (no panic in push / cleanup / drop) with flute's OWN writers behind the receiver:
+/// `kind` 0 = ObjectWriterBufferBuilder, 1 = ObjectWriterFSBuilder on a scratch directory.
+pub fn run_history_real_writer(hist: &[&[u8]], kind: u8, g: &mut G) -> Option<(String, String)> {
+    g.histories += 1;
+    let dir = if kind == 1 { Some(crate::c01::fresh_tmp("c04w")) } else { None };
+    let r = (|| {
+        let builder: std::rc::Rc<dyn flute::receiver::writer::ObjectWriterBuilder> = match &dir {
+            Some(d) => match flute::receiver::writer::ObjectWriterFSBuilder::new(d, true) {
+                Ok(b) => std::rc::Rc::new(b),
+                Err(e) => return Some(("C04/harness".to_string(), format!("{:?}", e))),
+            },
+            None => std::rc::Rc::new(flute::receiver::writer::ObjectWriterBufferBuilder::new(true)),
+        };
+        let mut rx = MultiReceiver::new(builder, Some(rx_config()), false);
+        let ep = endpoint();
+        let t = at_ms(60_000);
+        let w = if kind == 1 { "filesystem writer" } else { "buffer writer" };
+        for (i, p) in hist.iter().enumerate() {
+            g.pushes += 1;
+            match catch(|| rx.push(&ep, p, t + Duration::from_millis(i as u64))) {
+                Ok(Ok(())) => g.ok += 1,
+                Ok(Err(_)) => g.err += 1,
+                Err(pm) => {
+                    std::mem::forget(rx);
+                    return Some((format!("C04/panic/{}", panic_sig(&pm)), format!("push #{} panicked ({}): {}", i, w, pm)));
+                }
+            }
+        }
+        if let Err(pm) = catch(|| {
+            flute::verif::clock_advance(Duration::from_secs(11));
+            rx.cleanup(t + Duration::from_secs(11))
+        }) {
+            std::mem::forget(rx);
+            return Some((format!("C04/panic/{}", panic_sig(&pm)), format!("cleanup panicked ({}): {}", w, pm)));
+        }
+        if let Err(pm) = catch(move || drop(rx)) {
+            return Some((format!("C04/panic/{}", panic_sig(&pm)), format!("drop panicked ({}): {}", w, pm)));
+        }
+        None
+    })();
+    if let Some(d) = dir {
+        std::fs::remove_dir_all(d).ok();
+    }
+    r
+}
+
 // ------------------------------------------------------------------------------------------------
 // replayable case
 
@@ -159,6 +206,8 @@ pub fn run_history(hist: &[&[u8]], fu: Option<&FollowUp>, g: &mut G) -> Option<(
 pub struct Case {
     /// datagrams as hex strings
     pub hist: Vec<String>,
+    #[serde(default)]
+    pub kind: u8,
 }
 
 fn case_of(hist: &[&[u8]]) -> serde_json::Value {
@@ -169,8 +218,11 @@ pub fn replay(v: &serde_json::Value) -> Vec<Violation> {
     let c: Case = serde_json::from_value(v["case"].clone()).expect("case");
     let pk: Vec<Vec<u8>> = c.hist.iter().map(|h| unhex(h)).collect();
     let refs: Vec<&[u8]> = pk.iter().map(|p| &p[..]).collect();
-    let fu = follow_up();
     let mut g = G::default();
+    if v["check"] == "real-writer" {
+        return run_history_real_writer(&refs, v["case"]["kind"].as_u64().unwrap_or(0) as u8, &mut g).into_iter().map(|(key, what)| Violation { key, what, case: v.clone() }).collect();
+    }
+    let fu = follow_up();
     run_history(&refs, Some(&fu), &mut g).into_iter().map(|(key, what)| Violation { key, what, case: v.clone() }).collect()
 }
 
@@ -802,6 +854,55 @@ pub fn run(thorough: bool) -> i32 {
             }
         }
         rep.cov("part5_payload_length_x_cenc_histories", g.histories - before);
+    }
+
+    // (6) flute's own writers behind the receiver: every session of the corpus delivered with each packet
+    // lost, each packet's close-object bit flipped, reversed, and doubled
+    {
+        let before = g.histories;
+        let items: Vec<(usize, u8)> = (0..corp.len()).flat_map(|i| [(i, 0u8), (i, 1u8)]).collect();
+        let corp2 = corp.clone();
+        let res = par_map(&items, move |_, (ci, kind)| {
+            let mut gg = G::default();
+            let mut ff: Found = Default::default();
+            let pk = &corp2[*ci].1;
+            let n = pk.len();
+            let mut hists: Vec<Vec<Vec<u8>>> = Vec::new();
+            hists.push(pk.clone());
+            hists.push(pk.iter().rev().cloned().collect());
+            hists.push(pk.iter().flat_map(|p| [p.clone(), p.clone()]).collect());
+            for i in 0..n {
+                let mut h = pk.clone();
+                h.remove(i);
+                hists.push(h);
+                let mut h = pk.clone();
+                h[i][1] ^= 0x01; // LCT close-object flag
+                hists.push(h);
+                // lost packet AND the flag raised early on the packet before it
+                if i > 0 {
+                    let mut h = pk.clone();
+                    h[i - 1][1] |= 0x01;
+                    h.remove(i);
+                    hists.push(h);
+                }
+            }
+            for h in &hists {
+                let refs: Vec<&[u8]> = h.iter().map(|p| &p[..]).collect();
+                let r = run_history_real_writer(&refs, *kind, &mut gg);
+                if let Some((k, w)) = r {
+                    let case = json!({"check": "real-writer", "case": {"hist": refs.iter().map(|p| hex(p)).collect::<Vec<_>>(), "kind": kind}});
+                    ff.entry(k).and_modify(|e| e.2 += 1).or_insert((w, case, 1));
+                }
+            }
+            (gg, ff)
+        });
+        for (gg, ff) in res {
+            g.merge(&gg);
+            for (k, v) in ff {
+                found.entry(k).and_modify(|e| e.2 += v.2).or_insert(v);
+            }
+        }
+        rep.cov("part6_real_writer_histories", g.histories - before);
     }
 
     for (key, (what, case, n)) in found {
